@@ -321,12 +321,12 @@ impl HTarget {
             }
             Spec::StudentT { dim, nu, scale } => {
                 let s = x.powi_scalar(2).sum_dim(1).reshape([n]);
-                s.div_scalar(nu.0 * scale.0 * scale.0).add_scalar(1.0).log().mul_scalar(-(nu.0 + *dim as f64) / 2.0)
+                s.mul_scalar(1.0 / (nu.0 * scale.0 * scale.0)).add_scalar(1.0).log().mul_scalar(-(nu.0 + *dim as f64) / 2.0)
             }
             Spec::Quartic { c, .. } => x.powi_scalar(4).sum_dim(1).reshape([n]).mul_scalar(-c.0),
             Spec::Funnel => {
                 let (v, w) = (col(&x, 0), col(&x, 1));
-                v.clone().powi_scalar(2).div_scalar(-18.0) - w.powi_scalar(2).mul((-v.clone()).exp()).mul_scalar(0.5) - v.mul_scalar(0.5)
+                v.clone().powi_scalar(2).mul_scalar(-1.0 / 18.0) - w.powi_scalar(2).mul((-v.clone()).exp()).mul_scalar(0.5) - v.mul_scalar(0.5)
             }
             Spec::HalfLine { .. } => {
                 let x0 = col(&x, 0);
